@@ -12,7 +12,8 @@ from .. import stexpr as X
 ID = "C04"
 LEVEL = "exploration"
 BUDGET = {"quick": 55, "thorough": 900}
-FLOOR = {"quick": 150, "thorough": 2000}
+QUICK_CASES = 3000  # generator items in the quick tier (fixed amount of work; BUDGET is then only a safety cap)
+FLOOR = {"quick": 1000, "thorough": 2000}
 TIMEOUT = 60
 BATCH = 1
 REQUIRED_OBS = ["runs_observed", "events_emitted", "events_qualifying", "events_not_qualifying"]
